@@ -28,6 +28,8 @@ NEGATIVE = [  # (cfg, invariant that must be violated, what it shows)
      "hashing an area twice when it is a whole number of 4096-byte blocks is caught once sizes vary"),
     ("Neg_AppImage_readcap.cfg", "HashInputOk", "a reader that stops at a cap on the text is caught once "
                                                 "files lie above the thresholds"),
+    ("Neg_AppImage_verbose.cfg", "SigVerifies", "an optional flag that disturbs what is hashed is caught"),
+    ("Neg_AppImage_normpath.cfg", "SigVerifies", "lexical tidying of `link/..` is caught"),
     ("Neg_AppImage_nameclash.cfg", "NeverNameClash", "runs name two different images by one file name"),
     ("Neg_AppImage_byname.cfg", "SigVerifies", "a hash table keyed by file name is caught"),
     ("Neg_AppImage_reusepath.cfg", "NeverReusesPath", "-o paths get reused for other images"),
@@ -77,15 +79,20 @@ def exec_layout(ctx, lay, tag, k, shapes=None):
     r, h = ai.run_compute(path)
     reports.append(r)
     hins += h
-    r, h, _ = ai.run_signapp_hash(arg, cwd=inv.cwd)
+    # optional flags: -v / --verbose, and (for `hash`) the -i / -o it accepts without using them
+    opt = ("none", "-v", "--verbose", "none", "-v")[(k // len(LAYOUT_SHAPES)) % 5]
+    extra = [] if opt == "none" else [opt]
+    if shapes is not None:
+        shapes["flag " + opt] = shapes.get("flag " + opt, 0) + 1
+    r, h, _ = ai.run_signapp_hash(arg, cwd=inv.cwd, extra=extra + (["-i", "5"] if k % 4 == 1 else []))
     reports.append(r)
     hins += h
     it = (k * 7919) % 65536
     if k % 3 == 0 or shape == "output-elsewhere" or form["spell"] != "plain":
         out_abs, out_arg = inv.out_file("auth_%s.json" % tag)
-        r, h, _ = ai.run_signapp_message(arg, it, out_arg, cwd=inv.cwd, out_read=out_abs)
+        r, h, _ = ai.run_signapp_message(arg, it, out_arg, cwd=inv.cwd, out_read=out_abs, extra=extra)
     else:
-        r, h, _ = ai.run_signapp_message(arg, it, None, cwd=inv.cwd)
+        r, h, _ = ai.run_signapp_message(arg, it, None, cwd=inv.cwd, extra=extra)
     reports.append(r)
     hins += h
     shutil.rmtree(d, ignore_errors=True)
@@ -287,6 +294,7 @@ def run(ctx):
     cov_shapes = {}                         # how single files were named for signapp hash / message
     cov_dirs = {"signonetime": {}, "message": {}}
     cov_forms = {"signonetime": {}, "message": {}}
+    cov_opts = {"signonetime": {}, "message": {}}    # optional flag of the tool
     cov_clash = [0]                         # runs naming two images of different contents by one file name
 
     traces, meta = [], {}
@@ -448,6 +456,7 @@ def run(ctx):
         cov_clash[0] += 1 if clashes(b) else 0
         for st in plan:
             count(cov_forms["signonetime"], "%(addr)s/cwd=%(cwd)s/pub=%(pub)s/%(spell)s" % st["form"])
+            count(cov_opts["signonetime"], st["form"].get("opt", "none"))
         for st in plan:
             cov_sign[b["size"]] += len(st["imgs"])
             signed.update(chosen[i - 1] for i in st["imgs"])
@@ -491,7 +500,7 @@ def run(ctx):
             if st["out"]:
                 seen[st["out"]] = b["contents"][st["img"] - 1]
         return False
-    n_auth = min(len(order), ctx.pick(400, 8000))
+    n_auth = min(len(order), ctx.pick(400, 6000))
     first = [k for k in order if reuses(mauths[k])][:(3 * n_auth) // 4]
     order = first + [k for k in order if k not in set(first)]
     n_reuse = 0
@@ -508,6 +517,7 @@ def run(ctx):
         count(cov_dirs["message"], b["dirs"])
         for st in plan:
             count(cov_forms["message"], "%(addr)s/cwd=%(cwd)s/pub=%(pub)s/%(spell)s" % st["form"])
+            count(cov_opts["message"], st["form"].get("opt", "none"))
         add(t, {"kind": "auth", "lays": lays, "pre": pre, "plan": plan, "infos": infos, "src": "model",
                 "dirs": b["dirs"], "otherdir": otherdir})
     res.coverage["model_message_sequences_replayed"] = n_auth
@@ -527,12 +537,14 @@ def run(ctx):
                                         "message_sequences": cov_auth[s]} for s in sizes}
     res.coverage["invocation_shapes"] = {
         "single_file_tools": cov_shapes, "image_naming": cov_dirs, "forms": cov_forms,
+        "optional_flags": cov_opts,
         "signonetime_runs_with_two_different_images_under_one_file_name": cov_clash[0]}
     want_dirs = {"flat", "samename", "mixed", "blanks"}
     if set(cov_dirs["signonetime"]) != want_dirs or set(cov_dirs["message"]) != want_dirs or \
-            len(cov_forms["signonetime"]) < len(forms) or \
+            len(cov_forms["signonetime"]) < len(forms) or len(cov_opts["signonetime"]) < 3 or \
+            len(cov_opts["message"]) < 3 or \
             {k.split("/")[-1] for k in cov_forms["message"]} != {f["spell"] for f in forms} or \
-            not cov_clash[0] or len(cov_shapes) < len(LAYOUT_SHAPES):
+            not cov_clash[0] or len(cov_shapes) < len(LAYOUT_SHAPES) + 3:
         raise core.MachineryError("invocation shapes not all exercised: %s" % res.coverage["invocation_shapes"])
     for s in sizes:
         if not (cov_hash[s] and cov_sign[s] and (cov_auth[s] or s == "scaled")):
@@ -541,7 +553,7 @@ def run(ctx):
 
     # 4. random tier: 1..8 areas, record lengths 1..255, several zones; one in eight with area lengths
     # on / next to the powers of two from 256 to 64 KiB
-    n_rand = ctx.pick(300, 4000)
+    n_rand = ctx.pick(300, 3000)
     n_boundary = 0
 
     def rand_image(p_small=0.3, p_boundary=0.12):
@@ -560,6 +572,7 @@ def run(ctx):
     def rand_form():
         return {"addr": rng.choice(("rel", "abs", "dotslash", "mixed")), "cwd": rng.choice(("imgdir", "other")),
                 "pub": rng.choice(("rel", "abs", "otherdir")),
+                "opt": rng.choice(("none", "-v", "--verbose")),
                 "spell": rng.choice(("plain", "plain", "dotdot-link-decoy", "dotdot-link-empty", "dotdot-real",
                                      "via-link", "file-link", "slashes", "inner-dot"))}
     n_rs = ctx.pick(48, 1000)
